@@ -5,7 +5,7 @@ use std::fmt::Debug;
 pub fn fw(x: f64) -> String {
     if x.is_nan() { "7ff8000000000000".to_string() } else { format!("{:016x}", x.to_bits()) }
 }
-pub fn iw(n: i64) -> String { format!("i{}", n) }
+pub fn iw<T: Into<i128>>(n: T) -> String { format!("i{}", n.into()) }
 pub fn bw(b: bool) -> String { if b { "b1".into() } else { "b0".into() } }
 
 /// numeric tokens of a Debug rendering, in order, as protocol words
